@@ -76,7 +76,7 @@ CLAIMS = {
              "bytes::Buf read (directly or at every call site of a read helper), variable widths within 1..=8. Structural on round-trip: writer/reader call shapes, loop "
              "bounds, tag constants and the integer width/extension convention agree. Value-level round-trip equality in general and byte compatibility with "
              "cr-sqlite's packer are NOT decided.",
-        note="speedy's own Reader methods are bounded by remaining input (read 0.8.7 source); third-party decoders (foca/bincode) trusted",
+        note="speedy's own Reader methods are bounded by remaining input provided the element type declares a positive minimum_bytes_needed (read 0.8.7 source; C09.vecmin checks the proviso); third-party decoders (foca/bincode) trusted",
         technique="effect reachability over the decode call-graph closure + provenance of allocation sizes + codec shape agreement",
         ref="§3 C09"),
     "C10": dict(
